@@ -201,7 +201,8 @@ def countListens : List Op → Nat
 `tools/extract/lockpaths.go` prints, for every method and function literal of `midicatdrv/in.go` and
 `out.go`, each control path (loops unrolled 0, 1 and 2 times) as a list of events `(kind, arg)`:
 `(0,m)` Lock of mutex `m`, `(1,m)` Unlock, `(2,m)` RLock, `(3,m)` RUnlock, `(4,f)` call of function `f` of
-the table on the same receiver, `(5,0)` return (after the deferred unlocks, which are emitted before it).
+the table on the same receiver, `(5,0)` return (after the deferred unlocks, which are emitted before it),
+`(6,0)` cut (the path was followed through two rounds of an endless loop, or ends in `panic`).
 Mutex 0 is the port's own embedded `sync.RWMutex`. -/
 
 inductive Held where
@@ -241,7 +242,7 @@ def mayLock (table : List (Nat × List (List (Nat × Nat)))) : Nat → Nat → L
 
 /-- one path is well nested: never Lock/RLock a mutex that is held, never Unlock/RUnlock one that is not
     held that way, never call a function that locks a mutex held here, nothing held at the return, and the
-    return is the last event of the path (and there is one). -/
+    return (or the cut of an endless loop) is the last event of the path (and there is one). -/
 def checkPath (table : List (Nat × List (List (Nat × Nat)))) (st : LockSt) : List (Nat × Nat) → Bool
   | [] => false
   | (kind, arg) :: rest =>
@@ -252,6 +253,7 @@ def checkPath (table : List (Nat × List (List (Nat × Nat)))) (st : LockSt) : L
     else if kind = 4 then
       (mayLock table table.length arg).all (fun m => heldOf st m == .free) && checkPath table st rest
     else if kind = 5 then allFree st && rest.isEmpty
+    else if kind = 6 then rest.isEmpty
     else false
 
 def checkFn (table : List (Nat × List (List (Nat × Nat)))) (paths : List (List (Nat × Nat))) : Bool :=
